@@ -219,6 +219,9 @@ IMask == {[t |-> "mask", v |-> <<1, 0, 1>>], [t |-> "mask", v |-> <<0, 1, 1>>]}
 IOther == {[t |-> "ell"], [t |-> "new"]}
 IItems == IInt \cup ISlice \cup IArr \cup IArr2 \cup IMask \cup IOther
 I1(s, items, st) == Cfg("getitem", "op", s, <<>>, <<>>, 0, NoAx, FALSE, 0, 0, items, st, "rr", "array", NA)
+\* a 0-d array can be indexed too: x[()], x[...], x[None], x[..., None]
+ZeroDIndex == {I1(<<>>, t, "tuple") : t \in {<<>>, <<[t |-> "ell"]>>, <<[t |-> "new"]>>, <<[t |-> "ell"], [t |-> "new"]>>, <<[t |-> "new"], [t |-> "new"]>>}}
+              \cup {I1(<<>>, <<[t |-> "ell"]>>, "bare"), I1(<<>>, <<[t |-> "new"]>>, "bare")}
 Consumes(it) == IF it.t \in {"ell", "new"} THEN 0 ELSE 1
 RECURSIVE SumConsumes(_, _)
 SumConsumes(items, i) == IF i > Len(items) THEN 0 ELSE Consumes(items[i]) + SumConsumes(items, i + 1)
@@ -251,6 +254,13 @@ LinalgFamily(z) ==
           sh \in {<<3>>, <<2, 3>>, <<3, 3>>} \cup (IF MaxRank >= 3 THEN {<<2, 3, 2>>} ELSE {}),
           ax \in UNION {{a \in AxisChoices(r) : a.k # "tuple" \/ Len(a.t) = 2} : r \in 1..3}, kd \in BOOLEAN,
           o \in {"none", "2", "3", "1", "inf", "-inf", "fro", "nuc", "0.5"}, k \in Kinds \cap {"rr", "cc"}}
+
+\* ---------------------------------------------------------------- reading a component of a tuple-valued result (C12)
+\* tp = <<component, way>> with way: 0 res[c], 1 res[c - len], 2 res[a:b][c - a] (a slice that contains c), 3 unpacking, 4 iteration, 5 reversed slice
+SelTupleFamily(z) ==
+  {L1(p[1], b, n, 0, 0, "sel", <<c, w>>, "rr") : p \in {<<"eigh", 2>>, <<"eig", 2>>, <<"slogdet", 2>>, <<"svd", 3>>}, b \in {<<>>, <<2>>}, n \in 2..3,
+      c \in 0..2, w \in 0..5} \ {x \in {L1(p[1], b, n, 0, 0, "sel", <<c, w>>, "rr") : p \in {<<"eigh", 2>>, <<"eig", 2>>, <<"slogdet", 2>>}, b \in {<<>>, <<2>>}, n \in 2..3,
+      c \in {2}, w \in 0..5} : TRUE}
 
 \* ---------------------------------------------------------------- fft
 \* ia = n (0 = None) for the 1-D transforms; tp = s argument (<<>> = None) and st2 in s3 field = axes for the n-D transforms; st = norm
@@ -406,7 +416,8 @@ Space == CASE Family = "binary" -> BinaryFamily(0)
            [] Family = "argsweep" -> ArgSweepFamily(0)
            [] Family = "linalg" -> LinalgFamily(0)
            [] Family = "fft" -> FftFamily(0)
-           [] Family = "index" -> {c \in IndexFamily(0) : SumConsumes(c.tp, 1) <= Len(c.s) /\ Cardinality({i \in DOMAIN c.tp : c.tp[i].t = "ell"}) <= 1}
+           [] Family = "index" -> {c \in IndexFamily(0) : SumConsumes(c.tp, 1) <= Len(c.s) /\ Cardinality({i \in DOMAIN c.tp : c.tp[i].t = "ell"}) <= 1} \cup ZeroDIndex
+           [] Family = "seltuple" -> SelTupleFamily(0)
            \* C11, second clause at the rule level: an index expression on a 2-D array combined with two DENSE uses of the same array, for
            \* every position of the indexed term among the three (ib = 0 first, 1 middle, 2 last) and three kinds of dense use (ia = 0 plain,
            \* 1 through transposes - cotangents arrive as non-contiguous views -, 2 through reshape)
